@@ -467,7 +467,9 @@ def _group(tlist, cls, match,
     delimiters = ()
     if isinstance(tlist, (sql.Parenthesis, sql.SquareBrackets, sql.Case,
                           sql.If, sql.For, sql.Begin)):
-        delimiters = (tlist.tokens[0], tlist.tokens[-1])
+        # comments may have been attached after the closing token
+        _, closing = tlist.token_prev(len(tlist.tokens), skip_cm=True)
+        delimiters = (tlist.tokens[0], closing)
     for idx, token in enumerate(list(tlist)):
         tidx = idx - tidx_offset
         if tidx < 0:  # tidx shouldn't get negative
